@@ -33,7 +33,7 @@ def timeChar (c : Char) : Bool :=
 structure Codec.Valid (C : Codec) : Prop where
   /-- `FormatFloat(d.Seconds(),'f',5,64)`: the sign and the nearest multiple of 10 µs
   (a decimal tie may be rounded either way) -/
-  fmt_dur : ∀ d : Int, d.natAbs < durMax.toNat →
+  fmt_dur : ∀ d : Int, d.natAbs ≤ durMax.toNat →
     ∃ q : Nat, C.fmtDur d = decText (decide (d < 0)) q ∧ q * 10000 ≤ d.natAbs + 5000 ∧ d.natAbs ≤ q * 10000 + 5000
   /-- `time.Duration(ParseFloat(text) * 1e9)`: exact, or one nanosecond short (truncation) -/
   parse_dur : ∀ (neg : Bool) (q : Nat), q ≤ 100000000000 →
